@@ -884,6 +884,16 @@ class TreeTransform(Generic[TreeFnT]):
           f' "{child.name}" behind the aggregation of a transform of the same'
           ' name, use different names to chain them.'
       )
+    # The fused transform runs every slicer for every aggregate: a slice that
+    # both transforms declare would be accumulated twice, as in add_slice().
+    slice_names = set(slicer.slice_name for slicer in self.slicers)
+    for slicer in child.slicers:
+      if slicer.slice_name in slice_names:
+        raise ValueError(
+            f'Duplicate slice name {slicer.slice_name}: cannot fuse transforms'
+            ' of the same name that declare the same slice, declare it once'
+            ' or use different names to chain them.'
+        )
     return self.maybe_replace(
         fns=self.fns + child.fns,
         agg_fns=self.agg_fns + child.agg_fns,
